@@ -1,4 +1,5 @@
 import Gmx.Model.Num
+import Gmx.Gen.SdkPool
 /-!
 # Gmx.Model.StorePool — `programs/store/src/states/market/pool.rs` (`Pool`) and the SDK copy
 `crates/programs/src/model/pool.rs` (C15)
@@ -108,11 +109,17 @@ def run (W : Nat) (p : Pool) : List Op → Option Pool
     | none => none
     | some q => run W q os
 
-/-- the SDK copy: same steps except `cancel` is the default implementation. -/
+/-- `checked_cancel_amounts` of the SDK copy: the program's override if the copy has it (decided by
+the translator from the source on every run), otherwise the inherited default. -/
+def cancelSdk (W : Nat) (p : Pool) : Option Pool :=
+  if Gmx.Gen.sdkOverridesCancel then some (cancel p) else cancelDefault W p
+
+/-- the SDK copy: same steps (the bodies are textually identical, checked by the translator)
+except `cancel`. -/
 def stepSdk (W : Nat) (p : Pool) : Op → Option Pool
   | .long d => applyLong W p d
   | .short d => applyShort W p d
-  | .cancel => cancelDefault W p
+  | .cancel => cancelSdk W p
 
 def runSdk (W : Nat) (p : Pool) : List Op → Option Pool
   | [] => some p
